@@ -200,3 +200,57 @@ def k2_child(res, tier):
         e.check(isinstance(en, EnumV) and en.tag == 1, 'child: a nested function is linked to its enclosing function')
         return {'fn': 'child'}
     _finish(res, e, e.explore(path), 'C02.K2:child:')
+
+
+# ---------------------------------------------------------------------------------------------- initialiser return reads self
+F40_SRC = 'class B {\n  init() { self.x = 1; let f = || self; }\n}\nprint(B().x);\n'
+F40_REPLAY = dict(kind='lay', source=F40_SRC, expect_stdout='1\n')
+
+
+@obligation('C02.K2.initializer_returns_self', 'C02', programs=('vm',), also=('C03',))
+def k2_init_return(res, tier):
+    """Compiler::emit_return inside an initialiser, with `self` in either of the states the resolver can give it (plain local, or
+    captured by a closure and therefore boxed in slot 0): the value returned to the caller is the instance, i.e. the implicit return
+    reads `self` the way every other read of `self` does (GetLocal for a plain local, GetBox for a boxed one)"""
+    P = get_program('vm')
+    e = Engine(P, loop_bound=6, timeout_s=120, max_depth=60)
+    CW = CompilerWorld(e, P)
+    sed = P.enum_def(STATE)
+    ed_opt = P.enum_def('Option')
+    fk = P.enum_def('laythe_core::object::FunKind') or P.enum_def('FunKind')
+    f = P.lookup('compiler::Compiler::emit_return')
+    res.bounds = {'state of self': 'LocalInitialized or LocalCaptured', 'open try blocks': 'any'}
+    res.assumptions = ['resolve_local(self) answers slot 0 with the state the resolver recorded (C02.K2.resolve_local decides the lookup itself)',
+                       'a captured parameter is boxed in place by the prologue (declare_and_define_parameter), so slot 0 then holds the box']
+
+    def m_resolve_local(e_, a, c):
+        k = e_.path_state['self_state']
+        tup = Struct('()', {0: Cell(bv(0, 8)), 1: Cell(EnumV(STATE, k, None, None, sed))}, None)
+        e_.path_state['asked'] = True
+        return EnumV('Option<(u8, SymbolState)>', 1, {'Some': {0: Cell(tup)}}, None, ed_opt)
+    e.model(r'^(compiler::)?Compiler::resolve_local$', m_resolve_local)
+    e.model(r'^(compiler::)?Compiler::open_tries$', lambda e_, a, c: bv(0, 64))
+
+    def path(e):
+        c = CW.fresh_compiler(e)
+        c.f[CW.ix['fun_kind']] = Cell(EnumV(fk.name if hasattr(fk, 'name') else 'FunKind', fk.vindex['Initializer'], None, None, fk))
+        captured = e.fork_bool(z3.Bool('self_is_captured'))
+        e.path_state['self_state'] = sed.vindex['LocalCaptured' if captured else 'LocalInitialized']
+        e.call(f, [Ref(Cell(c)), z3.BitVec('line', 32)])
+        from .compabs import emitted_names
+        names = emitted_names(e)
+        first = e.path_state['emitted'][0] if e.path_state['emitted'] else None
+        want = 'GetBox' if captured else 'GetLocal'
+        e.check(bool(names) and names[0] == want, 'emit_return in an initialiser: the implicit return reads self through its box when self is captured',
+                {'self_captured': captured, 'emitted': names[:4]})
+        e.check(names[-1] == 'Return' if names else False, 'emit_return ends with Return')
+        return {'self_captured': captured, 'emitted': names[:4]}
+    results = e.explore(path)
+    for r in results:
+        for lab, ok, info in list(r.checks):
+            if not ok and 'implicit return reads self' in lab:
+                res.fail('C02.K2:initializer returns the box of a captured self',
+                         'emit_return hard-codes GetLocal(0) for initialisers; when a closure captures self the prologue boxes slot 0, so `init` returns the box and '
+                         'the caller of the class receives an object without the fields the initialiser set', info, replay=F40_REPLAY)
+                r.checks.remove((lab, ok, info))
+    _finish(res, e, results, 'C02.K2:initializer_returns_self:')
